@@ -168,6 +168,96 @@ func (neo2Codec) proof(ccmc []byte, key, value []byte) ([]byte, []byte) {
 	return p.Bytes(), root
 }
 
+func neo2StorageKey(ccmc, key []byte) []byte {
+	sk := &neobc.Storagekey{Key: key}
+	copy(sk.ScriptHash[:], ccmc)
+	skey, err := neoio.ToArray(sk)
+	if err != nil {
+		panic(err)
+	}
+	return skey
+}
+
+func toNibbles(b []byte) []byte {
+	nib := make([]byte, 0, 2*len(b))
+	for _, x := range b {
+		nib = append(nib, x>>4, x&0x0f)
+	}
+	return nib
+}
+
+func neo2ValueNode(value []byte) []byte {
+	item := append([]byte{0}, neoVarBytes(value)...)
+	item = append(item, 0)
+	return append([]byte{0x03}, neoVarBytes(item)...)
+}
+
+func neo2Short(key, next []byte) []byte {
+	n := append([]byte{0x01}, neoVarBytes(key)...)
+	return append(n, neoVarBytes(neocrypto.Hash256(next))...)
+}
+
+func assembleProof(skey []byte, nodes [][]byte) []byte {
+	var p bytes.Buffer
+	p.Write(neoVarBytes(skey))
+	p.Write(neoVarUint(len(nodes)))
+	for _, n := range nodes {
+		p.Write(neoVarBytes(n))
+	}
+	return p.Bytes()
+}
+
+// proof2 builds a NEO 2 state trie with TWO entries (short node over the common prefix, full
+// node, one child per entry) and returns the proof nodes of the first entry and the root.
+func (neo2Codec) proof2(ccmc []byte, k1, v1, k2, v2 []byte) (skey []byte, nodes [][]byte, root []byte) {
+	s1, s2 := neo2StorageKey(ccmc, k1), neo2StorageKey(ccmc, k2)
+	n1, n2 := toNibbles(s1), toNibbles(s2)
+	i := 0
+	for i < len(n1) && i < len(n2) && n1[i] == n2[i] {
+		i++
+	}
+	if i >= len(n1) || i >= len(n2) {
+		panic("lcont: trie keys must differ")
+	}
+	child := func(rest, vnode []byte) []byte {
+		if len(rest) == 0 {
+			return vnode
+		}
+		return neo2Short(rest, vnode)
+	}
+	vn1, vn2 := neo2ValueNode(v1), neo2ValueNode(v2)
+	c1, c2 := child(n1[i+1:], vn1), child(n2[i+1:], vn2)
+	full := []byte{0x00}
+	for j := 0; j < 17; j++ {
+		switch {
+		case j == int(n1[i]):
+			full = append(full, neoVarBytes(neocrypto.Hash256(c1))...)
+		case j == int(n2[i]):
+			full = append(full, neoVarBytes(neocrypto.Hash256(c2))...)
+		default:
+			full = append(full, 0)
+		}
+	}
+	top := full
+	nodes = [][]byte{full}
+	if i > 0 {
+		top = neo2Short(n1[:i], full)
+		nodes = [][]byte{top, full}
+	}
+	if len(n1[i+1:]) > 0 {
+		nodes = append(nodes, c1)
+	}
+	nodes = append(nodes, vn1)
+	return s1, nodes, neocrypto.Hash256(top)
+}
+
+func (neo2Codec) proofNodes(ccmc []byte, key, value []byte) (skey []byte, nodes [][]byte, root []byte) {
+	skey = neo2StorageKey(ccmc, key)
+	vnode := neo2ValueNode(value)
+	snode := neo2Short(toNibbles(skey), vnode)
+	return skey, [][]byte{snode, vnode}, neocrypto.Hash256(snode)
+}
+
 func (neo2Codec) tracked(v e1.View, chainID uint64) (uint32, hash160, bool) {
 	raw := v.Get(chain.HeaderSync, []byte(hscom.CONSENSUS_PEER), u64(chainID))
 	if raw == nil {
@@ -303,6 +393,54 @@ func (neo3Codec) proof(ccmc []byte, key, value []byte) ([]byte, []byte) {
 	p.Write(neoVarBytes(ext.ToArrayWithoutReference()))
 	p.Write(neoVarBytes(leaf.ToArrayWithoutReference()))
 	return p.Bytes(), root
+}
+
+func neo3StorageKey(ccmc, key []byte) []byte {
+	id := int(int32(binary.LittleEndian.Uint32(append(append([]byte{}, ccmc...), 0, 0, 0, 0)[:4])))
+	skey, err := neo3io.ToArray(&neo3bc.StorageKey{Id: id, Key: key})
+	if err != nil {
+		panic(err)
+	}
+	return skey
+}
+
+func (neo3Codec) proofNodes(ccmc []byte, key, value []byte) (skey []byte, nodes [][]byte, root []byte) {
+	skey = neo3StorageKey(ccmc, key)
+	leaf := neo3mpt.NewLeafNode(value)
+	ext := neo3mpt.NewExtensionNode(neo3mpt.ToNibbles(skey), leaf)
+	return skey, [][]byte{ext.ToArrayWithoutReference(), leaf.ToArrayWithoutReference()}, ext.GetHash().ToByteArray()
+}
+
+// proof2: N3 state trie with two entries (extension over the common prefix, branch, one child
+// per entry); proof nodes of the first entry and the root.
+func (neo3Codec) proof2(ccmc []byte, k1, v1, k2, v2 []byte) (skey []byte, nodes [][]byte, root []byte) {
+	s1, s2 := neo3StorageKey(ccmc, k1), neo3StorageKey(ccmc, k2)
+	n1, n2 := neo3mpt.ToNibbles(s1), neo3mpt.ToNibbles(s2)
+	i := 0
+	for i < len(n1) && i < len(n2) && n1[i] == n2[i] {
+		i++
+	}
+	if i >= len(n1) || i >= len(n2) || i == 0 {
+		panic("lcont: trie keys must differ after a common prefix")
+	}
+	leaf1, leaf2 := neo3mpt.NewLeafNode(v1), neo3mpt.NewLeafNode(v2)
+	c1, c2 := leaf1, leaf2
+	if len(n1[i+1:]) > 0 {
+		c1 = neo3mpt.NewExtensionNode(n1[i+1:], leaf1)
+	}
+	if len(n2[i+1:]) > 0 {
+		c2 = neo3mpt.NewExtensionNode(n2[i+1:], leaf2)
+	}
+	br := neo3mpt.NewBranchNode()
+	br.Children[n1[i]] = *c1
+	br.Children[n2[i]] = *c2
+	top := neo3mpt.NewExtensionNode(n1[:i], br)
+	nodes = [][]byte{top.ToArrayWithoutReference(), br.ToArrayWithoutReference()}
+	if c1 != leaf1 {
+		nodes = append(nodes, c1.ToArrayWithoutReference())
+	}
+	nodes = append(nodes, leaf1.ToArrayWithoutReference())
+	return s1, nodes, top.GetHash().ToByteArray()
 }
 
 func (neo3Codec) tracked(v e1.View, chainID uint64) (uint32, hash160, bool) {
